@@ -8,8 +8,10 @@
 (* happen to be linked into the binary.  A program is the set Extra of      *)
 (* packages it links besides the library; the library itself contributes    *)
 (* its own import closure LibClosure (read from the working tree with       *)
-(* `go list -deps` when the check runs, so the model is about the current   *)
-(* code).  The hashing API needs every hash in Needs.                       *)
+(* `go list -deps` when the check runs, per GOOS/GOARCH target, so the      *)
+(* model is about the current code).  The hashing API needs every hash in   *)
+(* Needs.  A package may also RE-register a hash with its own               *)
+(* implementation (crypto.RegisterHash): the registry then still has it.    *)
 (*                                                                         *)
 (*   Link     the linker fixes the package set                              *)
 (*   RunInits every linked package's init registers what it registers       *)
@@ -19,30 +21,32 @@ EXTENDS Naturals, FiniteSets
 
 CONSTANTS Universe,      \* packages a program might additionally link
           Registers,     \* Registers[p]: hashes p's init puts into the registry
-          LibClosure,    \* packages linked because the library imports them (transitively)
+          Platforms,     \* GOOS/GOARCH targets (build constraints can change what is linked)
+          LibClosure,    \* LibClosure[pl]: packages linked on pl because the library imports them (transitively)
           Needs          \* hashes the hashing API requests from the registry
 
-VARIABLES extra, registry, phase, outcome
-vars == << extra, registry, phase, outcome >>
+VARIABLES platform, extra, registry, phase, outcome
+vars == << platform, extra, registry, phase, outcome >>
 
 RegOf(p) == IF p \in DOMAIN Registers THEN Registers[p] ELSE {}
 
-Init == /\ extra \in SUBSET Universe          \* every program
+Init == /\ platform \in Platforms
+        /\ extra \in SUBSET Universe          \* every program
         /\ registry = {} /\ phase = "linked" /\ outcome = "none"
 
 RunInits == /\ phase = "linked"
-            /\ registry' = UNION {RegOf(p) : p \in LibClosure \cup extra}
-            /\ phase' = "running" /\ UNCHANGED << extra, outcome >>
+            /\ registry' = UNION {RegOf(p) : p \in LibClosure[platform] \cup extra}
+            /\ phase' = "running" /\ UNCHANGED << platform, extra, outcome >>
 
 CallHash == /\ phase = "running"
             /\ outcome' = IF Needs \subseteq registry THEN "ok" ELSE "panic"
-            /\ phase' = "done" /\ UNCHANGED << extra, registry >>
+            /\ phase' = "done" /\ UNCHANGED << platform, extra, registry >>
 
 Next == RunInits \/ CallHash
 Spec == Init /\ [][Next]_vars
 
 \* what the model predicts for one program
-Predict(ex) == IF Needs \subseteq UNION {RegOf(p) : p \in LibClosure \cup ex} THEN "ok" ELSE "panic"
+Predict(pl, ex) == IF Needs \subseteq UNION {RegOf(p) : p \in LibClosure[pl] \cup ex} THEN "ok" ELSE "panic"
 
 \* C17
 NeverPanics == phase = "done" => outcome = "ok"
